@@ -50,7 +50,6 @@ where
 //@ ensures final(self).wf() == old(self).wf(), final(self).errs() == old(self).errs(), old(self).wf() ==> handle_api_only(self),
 //@     final(self).writer == old(self).writer,
 //@ ---
-//@ proof { assert(self.writer.evs().subrange(0, self.writer.evs().len() as int) =~= self.writer.evs()); }
         self.new_prompt = Some(prompt)
     }
 
@@ -71,11 +70,12 @@ where
 //@ /// what any use of the handle through its API guarantees (ASSUMED of command handlers)
 //@ #[verifier::prophetic]
 //@ pub open spec fn handle_api_only<W: Write<Error = E>, E: crate::verif_specs::embedded_io::Error>(h: &mut CliHandle<'_, W, E>) -> bool {
-//@     &&& final(h).writer.wf() && final(h).writer.base == h.writer.base
+//@     &&& final(h).writer.base == h.writer.base
 //@     &&& final(h).writer.fin_evs() == h.writer.fin_evs() && final(h).writer.fin_errs() == h.writer.fin_errs()
 //@     &&& final(h).writer.errs() >= h.writer.errs()
-//@     // the sink log only grows
-//@     &&& final(h).writer.evs().len() >= h.writer.evs().len() && final(h).writer.evs().subrange(0, h.writer.evs().len() as int) == h.writer.evs()
+//@     // as long as no sink operation failed the Writer stays well-formed and the sink log only grows
+//@     &&& final(h).writer.errs() == h.writer.errs() ==> final(h).writer.wf() && final(h).writer.evs().len() >= h.writer.evs().len()
+//@         && (forall|i: int| 0 <= i < h.writer.evs().len() ==> #[trigger] final(h).writer.evs()[i] == h.writer.evs()[i])
 //@ }
 //@ #[verifier::external]   // NOT MIRRORED: Debug formatting glue
 impl<W, E> Debug for CliHandle<'_, W, E>
@@ -382,7 +382,7 @@ where
 //@     assert(evs3 == (if out_h.len() > 0 && out_h.last() != 0x0A { evs_h.push(Ev::W(seq![0x0Du8, 0x0Au8])) } else { evs_h }));
 //@ }
 //@ proof {   // [C06,C13]
-//@     if evs3.len() == evs1.len() { assert(evs3 =~= evs3.subrange(0, evs1.len() as int)); }
+//@     if evs3.len() == evs1.len() { assert(evs3 =~= evs1); }
 //@     assert(is_fresh(term_run(evs3)));
 //@     broadcast use lemma_str_view_bytes;
 //@     lemma_term_push(evs3, Ev::W(self.prompt.spec_bytes()));
@@ -930,7 +930,7 @@ where
             self.prompt = prompt;
         }
 //@ proof {   // [C06,C13]
-//@     if handle.writer.evs().len() == evs0.len() { assert(handle.writer.evs() =~= handle.writer.evs().subrange(0, evs0.len() as int)); }
+//@     if handle.writer.evs().len() == evs0.len() { assert(handle.writer.evs() =~= evs0); }
 //@ }
 //@ let ghost evs_h = handle.writer.evs();
 //@ let ghost out_h = handle.writer.out();
@@ -1060,7 +1060,7 @@ where
         };
 
 //@ proof {   // [C06,C13]
-//@     if writer.evs().len() == evs0.len() { assert(writer.evs() =~= writer.evs().subrange(0, evs0.len() as int)); }
+//@     if writer.evs().len() == evs0.len() { assert(writer.evs() =~= evs0); }
 //@ }
 //@ let ghost evs_h = writer.evs();
 //@ let ghost out_h = writer.out();
